@@ -41,6 +41,7 @@ type Solver struct {
 	lastQuery              string
 	label                  string
 	alt                    string
+	byLabel                map[string]time.Duration
 	nAlt                   int
 }
 
@@ -258,6 +259,13 @@ func (s *Solver) Check(extra *Term) Result {
 		r = s.retryAlt()
 	}
 	s.solveTime += time.Since(start)
+	if s.byLabel != nil {
+		l := s.label
+		if i := strings.Index(l, " ["); i > 0 {
+			l = l[:i]
+		}
+		s.byLabel[l] += time.Since(start)
+	}
 	if d := time.Since(start); d > 3*time.Second && os.Getenv("VERIF_DEBUG") != "" {
 		fmt.Fprintf(os.Stderr, "slow query %.1fs [%s] -> %v\n", d.Seconds(), s.label, r)
 		if s.log != nil {
